@@ -590,3 +590,45 @@ class _Sub:
         if slot.startswith('validates:'):
             self.ctx.ob('C18.D2', where, slot, ok, msg, detail, nontrivial)
         return ok
+
+
+def run_thorough(ctx):
+    """Cross-check of the length factoring: build, for every validator with a
+    length limit, the full product of its length-free automaton with an
+    explicit 0..256 length counter and compare it with grammar x (len <= 255)
+    - both inclusions, for all strings."""
+    from ..automata import DFA
+    prog = ctx.prog
+    ab = make_alphabet()
+    tr = Translator(prog, ab)
+    rc = RegexCompiler(ab, flags=re.DOTALL)
+
+    def len_le(k):
+        n = k + 2
+        trans = [[min(i + 1, n - 1)] * ab.n for i in range(n)]
+        return DFA(ab.n, trans, 0, set(range(k + 1)))
+    sizes = {}
+    for qn, g in GRAMMARS.items():
+        if g['maxlen'] is None:
+            continue
+        fi = prog.func(qn)
+        res = tr.validator(fi)
+        bounds = [k if op == '>' else k - 1 for op, k in res['len_atoms']
+                  if op in ('>', '>=')]
+        if not bounds:
+            continue
+        impl = res['accept'] & len_le(min(bounds))
+        specl = rc.language(g['full'], 'fullmatch') & len_le(g['maxlen'])
+        sizes[qn] = impl.n
+        w1 = (impl - specl).witness()
+        w2 = (specl - impl).witness()
+        ctx.ob('C18.D1', qn, 'full-product:accepts-only-grammar', w1 is None,
+               'with the length counter in the product, %s accepts a string '
+               'of length %d outside the grammar' % (
+                   fi.name, len(w1) if w1 else 0),
+               {'witness_prefix': ab.word(w1)[:40]} if w1 else None)
+        ctx.ob('C18.D1', qn, 'full-product:accepts-all-grammar', w2 is None,
+               'with the length counter in the product, %s rejects a valid '
+               'name of length %d' % (fi.name, len(w2) if w2 else 0),
+               {'witness_prefix': ab.word(w2)[:40]} if w2 else None)
+    ctx.extra['full_product_states'] = sizes
